@@ -5,6 +5,8 @@ use crate::json::Json;
 
 pub mod c01;
 pub mod c02;
+pub mod c04;
+pub mod c08;
 pub mod enumcase;
 pub mod c13;
 pub mod c14;
@@ -18,7 +20,9 @@ pub fn run(ctx: &Ctx) -> Option<Report> {
     Some(match ctx.id.as_str() {
         "C01" => c01::run(ctx, c01::Which::C01),
         "C02" => c02::run(ctx),
+        "C04" => c04::run(ctx),
         "C07" => c01::run(ctx, c01::Which::C07),
+        "C08" => c08::run(ctx),
         "C13" => c13::run(ctx),
         "C14" => c14::run(ctx),
         _ => return None,
@@ -30,7 +34,9 @@ pub fn replay(property: &str, case: &Json, ctx: &Ctx) -> Option<Report> {
     Some(match property {
         "C01" => c01::replay(case, c01::Which::C01),
         "C02" => c02::replay(case),
+        "C04" => c04::replay(case),
         "C07" => c01::replay(case, c01::Which::C07),
+        "C08" => c08::replay(case, ctx),
         "C13" => c13::run(ctx),
         "C14" => c14::run(ctx),
         _ => return None,
@@ -65,7 +71,8 @@ pub fn child_main(args: &[String]) -> i32 {
         stack = args[3].parse().unwrap_or(stack);
     }
     let handle = std::thread::Builder::new().stack_size(stack).spawn(move || {
-        let ctx = Ctx::new(&property, crate::core::Tier::Quick, 0);
+        let mut ctx = Ctx::new(&property, crate::core::Tier::Quick, 0);
+        ctx.in_child = true;
         replay(&property, &case, &ctx)
     });
     let report = match handle {
